@@ -4,6 +4,7 @@ import RedoModel.DoFiles
 import RedoModel.LogRec
 import RedoModel.Commit
 import RedoModel.Makeflags
+import RedoModel.StampStr
 import RedoModel.DepsWire
 import RedoModel.CoreWire
 import RedoModel.TokensWire
@@ -132,6 +133,15 @@ def respond (line : String) : String :=
   | ["locks-replay", evs] => LocksWire.respond evs
   | ["once-replay", evs] => OnceWire.respond evs
   | ["waits-replay", reach, evs] => WaitsWire.respond reach evs
+  | ["stamp-override", a, b] =>
+    match dec a, dec b with
+    | some a, some b => toString (StampStr.detectOverride a b)
+    | _, _ => "bad-op"
+  | ["stamp-render", mt, sz, ino, mode, uid, gid] =>
+    match sz.toNat?, ino.toNat?, mode.toNat?, uid.toNat?, gid.toNat? with
+    | some sz, some ino, some mode, some uid, some gid =>
+      String.ofList (StampStr.render { mtime := mt.toList, size := sz, ino := ino, mode := mode, uid := uid, gid := gid })
+    | _, _, _, _, _ => "bad-op"
   | ["makeflags", x] =>
     match dec x with
     | some x => match Makeflags.parse x with
